@@ -29,6 +29,11 @@ NPointInverted(Pn) == \E i \in 1..(Len(Pn) - 1) : Pn[i] <= Pn[i + 1]
 NPointInvalid(Tn, Pn, limit) ==
     \/ NPointInverted(Pn)
     \/ \E i \in 1..(Len(Pn) - 1) : SlopeTooHigh(Tn, Pn, limit, i)
+\* rejected under every reading of "inverted" / "excessive": equal nodes and slopes exactly at the
+\* limit are a measure-zero boundary on which the property accepts rejection and acceptance alike
+NPointStrictlyInvalid(Tn, Pn, limit) ==
+    \/ \E i \in 1..(Len(Pn) - 1) : Pn[i] < Pn[i + 1]
+    \/ \E i \in 1..(Len(Pn) - 1) : Pn[i] > Pn[i + 1] /\ SlopeTooHigh(Tn, Pn, limit, i) /\ ~SlopeTie(Tn, Pn, limit, i)
 NPointRaw(Tn, Pn, LP) ==
     [l \in 1..Len(LP) |-> Pwl(LP[l], Pn, [i \in 1..Len(Tn) |-> Q(Tn[i])])]
 NPointProfile(Tn, Pn, LP, sw, rule) ==
